@@ -232,6 +232,119 @@ def cert_grid(tier):
     return cases
 
 
+# ------------------------------------------------------------------ certificates presented on a live connection
+CONN_NOW = 1_700_000_000 + 1000         # determ epoch + initial virtual clock
+
+
+def conn_cases():
+    far = 2 ** 64 - 1
+    t = CONN_NOW
+    opts = [((), ()), (((b'force-command', s('x')),), ()), (((b'unknown-critical@example.com', s('v')),), ()),
+            ((), ((b'foo@example.com', s('bar')),))]
+    out = []
+    for use in (1, 2):
+        name = 'user' if use == 1 else 'h.example'
+        for ctype in (1, 2):
+            for after, before in ((0, far), (0, t), (t, far), (t + 1, far), (t - 5, t), (t, t + 1)):
+                for principals in ((), (name,), ('other',), ('other', name)):
+                    for opt in opts:
+                        for trust in ('file', 'callback', 'none'):
+                            out.append((use, ctype, after, before, principals, opt, trust))
+    return out
+
+
+def conn_present(use, ctype, after, before, principals, opt, trust):
+    """A peer proves possession of the subject key and presents a hand-built certificate; the endpoint
+    under test trusts the CA through its trust file, through the application callback, or not at all."""
+    import refpeer as R
+    import rpharness as H
+    ca = P.key('c16-ca')
+    subj = P.key('c16-subj')
+    critical, extensions = opt
+    blob = build_cert(ca, subj, ctype, principals, after, before, critical, extensions)
+    ca_line = ca.export_public_key('openssh').decode()
+    if use == 2:
+        class Cl(P.RecClient):
+            def validate_host_ca_key(self, host, addr, port, key):
+                return trust == 'callback'
+        kh = ('@cert-authority * ' + ca_line) if trust == 'file' else ''
+        w = H.CliWorld(copts=dict(known_hosts=kh.encode(), host='h.example', port=22, client_factory=Cl))
+        try:
+            rp = w.rp
+            rp.fake_hostkey_blob = blob
+            rp.hostkey = raw_ed25519(subj)
+            rp.hostkey_algs = ['ssh-ed25519-cert-v01@openssh.com']
+            w.start()
+            w.flush()
+            wt = w.copt.waiter
+            ok = bool(wt.done() and not wt.cancelled() and wt.exception() is None)
+            sent_auth = R.MSG_USERAUTH_REQUEST in rp.types()
+            exc = w.loop.unretrieved()
+            return ok or sent_auth, (repr(wt.exception())[:120] if wt.done() and not wt.cancelled() else 'pending'), exc
+        finally:
+            w.close()
+    else:
+        class Srv(P.RecServer):
+            def validate_ca_key(self, username, key):
+                return trust == 'callback'
+        env = {}
+        holder = {}
+
+        def mk():
+            holder['o'] = Srv(env)
+            return holder['o']
+        ak = asyncssh.import_authorized_keys(('cert-authority ' + ca_line + '\n') if trust == 'file' else '')
+        w = H.SrvWorld(env=env, sopts=dict(server_factory=mk, authorized_client_keys=ak))
+        try:
+            rp = w.rp
+            w.kex()
+            rp.send(rp.service_request())
+            w.flush()
+            body = R.boolean(True) + R.string('ssh-ed25519-cert-v01@openssh.com') + R.string(blob)
+            signed = R.string(rp.session_id) + R.byte(R.MSG_USERAUTH_REQUEST) + R.string('user') + \
+                R.string('ssh-connection') + R.string('publickey') + body
+            sig = raw_ed25519(subj).sign(signed)
+            rp.send(rp.userauth_request('user', 'publickey', body + R.string(R.string('ssh-ed25519') + R.string(sig))))
+            w.flush()
+            ok = R.MSG_USERAUTH_SUCCESS in rp.types()
+            return ok, 'types=%r' % (rp.types()[-3:],), w.loop.unretrieved()
+        finally:
+            w.close()
+
+
+def conn_worker(job):
+    acc = core.Acc()
+    for case in job:
+        use, ctype, after, before, principals, opt, trust = case
+        want = trust != 'none' and cert_predicate(ctype, use, after, before, CONN_NOW, principals,
+                                                  'user' if use == 1 else 'h.example', opt[0])
+        try:
+            got, how, exc = conn_present(*case)
+        except Exception as e:              # pylint: disable=broad-except
+            got, how, exc = None, repr(e), []
+        acc.add(core.digest(('conn', case, got)), transitions=1,
+                sample={'presented_as': 'user' if use == 1 else 'host', 'cert_type': ctype, 'window': [after, before],
+                        'principals': list(principals), 'ca_trusted_via': trust, 'accepted': got}
+                if trust == 'callback' and got and principals else None)
+        acc.count('conn-accepted' if got else 'conn-rejected')
+        label = '%s:%s' % ('user' if use == 1 else 'host', trust)
+        rep = {'kind': 'conn', 'case': [use, ctype, after, before, list(principals),
+                                        [[[a.decode(), b.hex()] for a, b in opt[0]], [[a.decode(), b.hex()] for a, b in opt[1]]], trust]}
+        if got is None:
+            acc.violation('cert:connection-harness-error:%s' % label, how, rep)
+        elif got and not want:
+            acc.violation('cert:accepted-but-invalid:connection:%s' % label,
+                          'type=%d presented as %s, window=[%d,%d) now=%d principals=%r critical=%r CA trusted via %s: accepted (%s)'
+                          % (ctype, 'user' if use == 1 else 'host', after, before, CONN_NOW, principals, opt[0], trust, how), rep)
+        elif want and not got:
+            acc.violation('cert:valid-but-rejected:connection:%s' % label,
+                          'type=%d window=[%d,%d) principals=%r critical=%r CA trusted via %s: rejected (%s)'
+                          % (ctype, after, before, principals, opt[0], trust, how), rep)
+        if exc:
+            acc.violation('cert:loop-exception:connection', repr(exc[0].get('exception'))[:200], rep)
+    return acc
+
+
 def cert_edit_worker(job):
     ca_alg, kw, ctype, tier = job
     acc = core.Acc()
@@ -518,13 +631,16 @@ def main(tier, seed):
     ej = [(a, k, c, tier) for a, k in KEYTYPES for c in ('user', 'host')]
     acc.merge(core.pmap(cert_edit_worker, core.rotate(ej, seed)))
     acc.merge(keygen_cross())
+    cc = conn_cases()
+    acc.merge(core.pmap(conn_worker, [cc[i::32] for i in range(32)]))
     acc.merge(core.pmap(sshsig_worker, [tier]))
     shutil.rmtree(SCRATCH, ignore_errors=True)
     rule = ('signatures: 7 key types x all their signature algorithms x 3 messages x every single-byte edit of the '
             'signature (xor 01/80 at every offset, deletions, insertions), message edits, 11 algorithm relabels, '
             'another key; certificates: every single-byte edit of user and host certificates from 7 CA key types; '
             'acceptance grid (%d hand-built certificates: type x use x validity window x now x principals x wanted '
-            'x critical/extension sets); ssh-keygen -s / -L; SSHSIG: 13 allowed-signers forms x 6 clock values x 3 '
+            'x critical/extension sets); the same kind of certificate presented on a live connection as host or user '
+            'credential with the CA trusted by file, by application callback or not at all; ssh-keygen -s / -L; SSHSIG: 13 allowed-signers forms x 6 clock values x 3 '
             'principals, binding to message/namespace/CA, every single-byte edit of raw and armoured signatures, '
             'ssh-keygen -Y sign/verify' % len(grid))
     return core.finish(PROP, tier, seed, 'exploration', acc, t0, rule,
@@ -547,6 +663,10 @@ def replay(rep):
         acc = cert_grid_worker([case])
     elif k == 'certedit':
         acc = cert_edit_worker((r.get('ca', 'ssh-ed25519'), dict(KEYTYPES)[r.get('ca', 'ssh-ed25519')], r.get('ctype', 'user'), 'thorough'))
+    elif k == 'conn':
+        c = r['case']
+        opt = (tuple((a.encode(), bytes.fromhex(b)) for a, b in c[5][0]), tuple((a.encode(), bytes.fromhex(b)) for a, b in c[5][1]))
+        acc = conn_worker([(c[0], c[1], c[2], c[3], tuple(c[4]), opt, c[6])])
     elif k == 'keygen':
         acc = keygen_cross()
     else:
